@@ -513,6 +513,9 @@ def load_average(
         # single-channel or multi-channel image. For multi-channel, it returns
         # noise_sd for each channel
         noise_sd = (std_image / mean_image).mean(['x', 'y', 'z'])
+        if noise_sd.ndim == 0:
+            # a single channel: a plain number, as in every other image
+            noise_sd = float(noise_sd)
 
     # copy metadata from refimg
     if refimg is not None:
